@@ -264,8 +264,63 @@ let run_node (path : string) =
       Printf.printf "D %s\n" (node_dump false !n)) c.ops;
     print_string "E\n") (read_cases path)
 
+(* ---------- node + disk ---------- *)
+let fnv (s : string) : string =
+  let h = ref (BigZ.of_string "0xcbf29ce484222325") in
+  let p = BigZ.of_string "0x100000001b3" and m = BigZ.sub (BigZ.shift_left BigZ.one 64) BigZ.one in
+  String.iter (fun c ->
+    h := BigZ.logxor !h (BigZ.of_int (Char.code c));
+    h := BigZ.logand (BigZ.mul !h p) m) s;
+  Printf.sprintf "%016s" (BigZ.format "%x" !h) |> String.map (fun c -> if c = ' ' then '0' else c)
+
+let fname_suffix = function
+  | FKeys -> "-nun.data.keys" | FVals -> "-nun.data.values" | FMeta -> "-nun.madadata"
+  | FKeysOld -> "-nun.data.keys.old" | FValsOld -> "-nun.data.values.old"
+
+let files_digest (x : dnode) : string =
+  let all = List.concat_map (fun (dbn, fs) ->
+      List.map (fun (f, data) -> (string_of_cl dbn ^ fname_suffix f, string_of_cl data)) fs) x.dn_files in
+  let all = List.sort compare all in
+  Printf.sprintf "files=[%s]" (String.concat "," (List.map (fun (n, d) ->
+      Printf.sprintf "%s:%d:%s" (esc n) (String.length d) (fnv d)) all))
+
+let run_disk (path : string) =
+  List.iter (fun c ->
+    Printf.printf "C %s\n" c.id;
+    let role = role_of_tok (match c.header with r :: _ -> r | [] -> "P") in
+    let x = ref { dn_node = init_node (cl_of_string "nun") (cl_of_string "pwd") (cl_of_string "n0:3014") (n_of_int 1000) role clock0;
+                  dn_files = [] } in
+    let dead = ref false in
+    List.iter (fun op ->
+      let n = ref !x.dn_node in
+      let setn () = x := { !x with dn_node = !n } in
+      let res =
+        if !dead then "DEAD" else
+        match op with
+        | ["conn"] -> let (n', id) = connect !n in n := n'; setn (); Printf.sprintf "Conn %d" (int_of_nat id)
+        | ["cmd"; sid; line] ->
+          let (n', r) = step !n (nat_of_int (int_of_string sid)) (cl_of_string (unhex line)) in
+          n := n'; setn (); resp_str r
+        | ["disc"; sid] -> n := disconnect !n (nat_of_int (int_of_string sid)); setn (); "Left"
+        | "flush" :: orders ->
+          let orders = List.map (fun o -> if o = "-" then [] else
+                                    List.map (fun h -> cl_of_string (unhex h)) (String.split_on_char ',' o)) orders in
+          x := dflush !x orders; n := !x.dn_node; "Flushed"
+        | "restart" :: lo ->
+          (match drestart !x (List.map (fun h -> cl_of_string (unhex h)) lo) with
+           | RNode x' -> x := x'; n := x'.dn_node; "Restarted"
+           | RStartPanic -> dead := true; "PANIC")
+        | _ -> failwith "bad disk op" in
+      let inb = node_inboxes n in
+      let q = node_queues n in
+      setn ();
+      Printf.printf "%s | %s | %s\n" res inb q;
+      Printf.printf "D %s %s\n" (node_dump true !x.dn_node) (files_digest !x)) c.ops;
+    print_string "E\n") (read_cases path)
+
 let () =
   match Array.to_list Sys.argv with
+  | [_; "disk"; path] -> run_disk path
   | [_; "node"; path] -> run_node path
   | [_; "oplog"; path] -> run_oplog path
   | [_; "pending"; path] -> run_pending path
